@@ -41,7 +41,7 @@ def main():
             demo0 = [f for f in os.listdir(d) if f.startswith("demo")][0]
             # demos assert that dreye is imported from their original worktree: point them at the scratch copy
             txt = open(os.path.join(d, demo0)).read()
-            for wt in set(__import__("re").findall(r"/tmp/wt_C\d+", txt)):
+            for wt in set(__import__("re").findall(r"/tmp/wt[0-9]*_C[0-9]+", txt)):
                 txt = txt.replace(wt, dst)
             demo = os.path.join(tmp, "demo_run.py")
             open(demo, "w").write(txt)
